@@ -206,6 +206,13 @@ def run(ctx) -> None:
             b_ = kw.get("b", pos[1] if len(pos) > 1 else None)
             ok = a_ == f"{dlf.params[0]}.old_lines" and b_ == f"{dlf.params[0]}.new_lines"
         ctx.check("R2", ok, "rewrite.diff_lines: unified_diff(a=rfd.old_lines, b=rfd.new_lines)", "rewrite.diff_lines: the diff is not old_lines -> new_lines of the record", "", loc=dlf.loc())
+        # ... on every path: each value diff_lines returns is that unified_diff call (no second, hand-written hunk builder for some inputs)
+        for r_ in [n for n in walk_no_nested(dlf.node) if isinstance(n, ast.Return) and n.value is not None]:
+            from_ud = shapes.flows_from(dlf, r_.value, lambda e: isinstance(e, ast.Call) and unparse(e.func).endswith("unified_diff"))
+            ctx.check("R2", from_ud, f"rewrite.diff_lines L{r_.lineno}: the returned lines are difflib's unified diff",
+                      "rewrite.diff_lines: on some path the diff is not produced by difflib.unified_diff",
+                      f"`{unparse(r_)[:80]}`: for some records the hunks are built by other code than the one differ the rules know; nothing decides that what it prints applies "
+                      f"to the files (hunk ranges, overlapping context) and yields what the real run writes", loc=dlf.loc(r_), witness={"file": "two version lines 5 or 6 lines apart"})
         # (6) cli: same new_vinfo derivation
         gd = prog.function(getdiff)
         upf = prog.function("cli._update")
